@@ -131,6 +131,7 @@ func checkC05(c *Ctx) {
 	}
 	checkOpenRotation(c, "R1")
 	checkSeatFlagDefs(c, "R9")
+	checkSeatManagerConstruction(c, "R9")
 	okOld := !ab
 	d := ""
 	for _, r := range errRets {
@@ -392,6 +393,7 @@ func checkC05(c *Ctx) {
 		}
 	}
 	c.Min("R6", "waiting-flag stores in the rotation", n6, 2)
+	checkRotationArcArguments(c, "R6")
 
 	// ---------------- R8
 	checkIsInPairing(c, "R8")
